@@ -263,3 +263,31 @@ def copy_isolation(vc):
     st = vc.call(FR + '.__getstate__', f)
     vc.ensure(f'C12/__getstate__/{origin}/post/pickled-state-drops-only-the-waterfall', And(st.ok, st.value['waterfall'] is None, st.value is not F,
                                                                                            all(st.value[k] is F[k] for k in F if k != 'waterfall')))
+
+
+@contract('C12', 'every_construction_route_threads_the_seed', functions=[FR + '.__init__', FR + '.from_data', FR + '.from_backend_params'])
+def seed_threading(vc):
+    """A frame built with seed=s - through the constructor, from_data or from_backend_params - owns the generator default_rng(s): the stream its
+    noise is drawn from is a function of s alone (never fresh entropy), at position 0."""
+    route = ('constructor', 'from_data', 'from_backend_params')[vc.choose(3, 'route')]
+    cls = classref(vc, FR)
+    n, T, seed = Int('fchans'), Int('tchans'), Int('seed')
+    df, dt, fch1 = Real('df'), Real('dt'), Real('fch1')
+    vc.assume(And(n >= 1, T >= 1, df > 0, dt > 0, fch1 > 0))
+    if route == 'constructor':
+        out = vc.run(lambda: vc.interp.call(cls, [], dict(fchans=n, tchans=T, df=df, dt=dt, fch1=fch1, seed=seed, t_start=Real('t0'))))
+    elif route == 'from_data':
+        out = vc.run(lambda: vc.interp.call(vc.interp.getattr(cls, 'from_data'), [df, dt, fch1, True, symbolic_array('D', (T, n))], dict(seed=seed, t_start=Real('t0'))))
+    else:
+        nb, fl, k = Int('num_branches'), Int('fftlength'), Int('int_factor')
+        obs, sr = Real('obs_length'), Real('sample_rate')
+        vc.assume(And(nb >= 2, fl >= 1, k >= 1, sr > 0, obs >= k / (sr / nb / fl)))
+        out = vc.run(lambda: vc.interp.call(vc.interp.getattr(cls, 'from_backend_params'), [],
+                                            dict(fchans=n, obs_length=obs, sample_rate=sr, num_branches=nb, fftlength=fl, int_factor=k, fch1=fch1, ascending=True, seed=seed)))
+    vc.cover('reachable')
+    vc.ensure(f'C12/seed-threading/{route}/exc/none', out.ok)
+    if not out.ok:
+        return
+    rng = out.value.fields['rng']
+    vc.ensure(f'C12/seed-threading/{route}/post/generator-is-default_rng(seed)-at-position-0', And(eq(rng.stream, Sym(z3.Function('seed_stream', z3.IntSort(), z3.IntSort())(seed.t), 'int')), eq(rng.pos, 0)))
+    vc.ensure(f'C12/seed-threading/{route}/reads/no-unseeded-generator', len(tainted(vc, rng.stream)) == 0)
